@@ -1361,7 +1361,43 @@ func checkServiceEntryCreatedOnlyWhenUnknown(c *Ctx, rule string) {
 				return
 			}
 			// the table being filled before the store is shared (no lock taken: the static services at start-up)
-			if _, fresh := mu.Map.(*ssa.MakeMap); fresh || len(le.before[in]) == 0 {
+			_, isWrapperMethod := mu.Map.(*ssa.Parameter)
+			if _, fresh := mu.Map.(*ssa.MakeMap); fresh || (len(le.before[in]) == 0 && !isWrapperMethod) {
+				return
+			}
+			// the table wrapped in a small type with get/put methods: the put is judged where it is called, against the
+			// comma-ok result of the type's getter
+			if rcv := fn.Signature.Recv(); rcv != nil && isTable(rcv.Type()) {
+				isGetter := func(g *ssa.Function) bool {
+					if g == nil || g.Blocks == nil || g.Signature.Recv() == nil || !types.Identical(g.Signature.Recv().Type(), rcv.Type()) {
+						return false
+					}
+					has := false
+					eachInstr(g, func(_ *ssa.BasicBlock, _ int, y ssa.Instruction) {
+						if lk, ok := y.(*ssa.Lookup); ok && lk.CommaOk && isTable(lk.X.Type()) {
+							has = true
+						}
+					})
+					return has
+				}
+				for _, ed := range p.callersOf(fn) {
+					if p.isTestFn(ed.Caller.Func) || len(le.before[ed.Site]) == 0 {
+						continue
+					}
+					n++
+					missed := false
+					for _, a := range atomsAt(ed.Site.Block(), 0) {
+						if a.cmp != nil || a.truth {
+							continue
+						}
+						if ex, isEx := a.val.(*ssa.Extract); isEx && ex.Index == 1 {
+							if call, isCall := ex.Tuple.(*ssa.Call); isCall && isGetter(calleeFn(call.Common())) {
+								missed = true
+							}
+						}
+					}
+					c.Check(missed, rule, fmt.Sprintf("%s creates a service entry only for an unknown name#%d", fnKey(ed.Caller.Func), n), ed.Site.Pos(), "the put is on the miss side of the table's getter", "the entry of a service that is already known is replaced: the endpoint list (and whatever else the store has learned) is forgotten while the processor keeps running with it")
+				}
 				return
 			}
 			n++
